@@ -150,6 +150,15 @@ func TestC07(t *testing.T) {
 		if diff := hx.Diff(wantT, got); diff != "" {
 			t.Fatalf("Eval result differs from model: %s\n%s\nresult %s", diff, desc(), got.String())
 		}
+		// no temporary survives under any access path: a name the result does not list is not reachable by name either
+		for _, name := range tempLikeNames {
+			if wantT.Find(name) >= 0 {
+				continue
+			}
+			if res.Contains(name) || res.Select(name).Err == nil || res.Drop(name).Select(name).Err == nil || res.Filter(qframe.Filter{Column: name, Comparator: "isnull"}).Err == nil {
+				t.Fatalf("the result of Eval does not list a column %q but it is reachable by name (Contains %v, Select Err %v)\n%s", name, res.Contains(name), res.Select(name).Err, desc())
+			}
+		}
 		classes := []string{"result:" + col.Kind.String()}
 		if custom {
 			classes = append(classes, "custom-context")
